@@ -190,6 +190,16 @@ def safe_eq(a, b):
         return "raises:" + type(e).__name__
 
 
+def _short_src(x):
+    """python source of an argument; long octet strings by their generating expression (TcMachine._data / UslpMachine._tfdz)"""
+    if isinstance(x, (bytes, bytearray)) and len(x) > 64:
+        for first, step in ((0xB1, 5), (0xC1, 3)):
+            if bytes(x) == bytes((first + step * i) & 0xFF for i in range(len(x))):
+                src = f"bytes(({first:#x} + {step} * i) & 0xFF for i in range({len(x)}))"
+                return f"bytearray({src})" if isinstance(x, bytearray) else src
+    return repr(x)
+
+
 class NotAStartState(Exception):
     """the initial values are deliberately not decodable (USLP initial set with a stale frame length)"""
 
@@ -349,6 +359,11 @@ OPT_A = {"t": "flow", "v": b"xy"}
 OPT_B = {"t": "msg", "v": b"hello"}
 OPT_C = {"t": "fsreq", "action": 4, "first": "a", "second": "b"}  # replace: the third two-name action
 NAME255 = "n" * 255
+# level "b" arguments: long enough to carry the data-field length beyond 0x7FFF
+BIG_RESPS = [{"action": 1, "status": 0, "first": "f%03d" % i + "x" * 96, "second": None, "msg": bytes([i & 0xFF]) * 100} for i in range(160)]
+BIG_SEGS = [[i, i + 1] for i in range(4093)]
+BIG_OPTS = [{"t": "msg", "v": bytes([(i + j) & 0xFF for j in range(200)])} for i in range(170)]
+
 NAME255_UTF8 = "ä" * 127 + "z"  # 128 characters, 255 octets
 WIDTHS_Q = [(1, 1), (2, 4)]
 WIDTHS_T = [(1, 1), (2, 4), (4, 8), (8, 2)]
@@ -434,6 +449,19 @@ class CfdpMachine(Machine):
     def menu(self, level):
         k, t = self.kind, level == "t"
         ev = []
+        if level == "b":  # arguments that carry the 16-bit data-field length past 0x7FFF / close to 0xFFFF, and back
+            if k == "FileDataPdu":
+                return [("file_data=40000", "file_data", [40000, 0]), ("file_data=65000", "file_data", [65000, 1]), ("file_data=1", "file_data", [1, 1]),
+                        ("segment_metadata=5", "segment_metadata", [1, 5]), PACK]
+            if k == "NakPdu":
+                return [("segment_requests=4093", "segment_requests", BIG_SEGS), ("segment_requests=1", "segment_requests", [[1, 2]]),
+                        ("file_flag=NORMAL", "file_flag", 0), ("file_flag=LARGE", "file_flag", 1), PACK]
+            if k == "MetadataPdu":
+                return [("options=170x200", "options", BIG_OPTS), ("options=None", "options", None), ("source_file_name=255", "source_file_name", NAME255), PACK]
+            if k == "FinishedPdu":
+                return [("file_store_responses=160", "file_store_responses", BIG_RESPS), ("file_store_responses=[r]", "file_store_responses", [RESP_A]),
+                        ("fault_location=E4", "fault_location", b"\x00\x00\x00\x05"), PACK]
+            return []
         if k in ("EofPdu", "FinishedPdu"):
             if k == "FinishedPdu":
                 ev += [("file_store_responses=None", "file_store_responses", None), ("file_store_responses=[]", "file_store_responses", []),
@@ -534,7 +562,7 @@ class CfdpMachine(Machine):
         lines = [U.ctor_source(self.kind, cfg, model0["p"])]
         if start == "decoded":
             lines.append(f"pdu = {self.kind}.unpack(bytes(pdu.pack()))")
-        evs = {e[0]: e for e in self.menu("t")}
+        evs = {e[0]: e for e in self.menu("b") + self.menu("t")}
         for n in names:
             _, attr, spec = evs[n]
             if attr == "pack":
@@ -549,6 +577,13 @@ class CfdpMachine(Machine):
     def _arg_source(self, attr, spec):
         if spec is None:
             return "None"
+        if spec is BIG_OPTS:
+            return "[MessageToUserTlv(bytes([(i + j) & 0xFF for j in range(200)])) for i in range(170)]"
+        if spec is BIG_SEGS:
+            return "[(i, i + 1) for i in range(4093)]"
+        if spec is BIG_RESPS:
+            return ("[FileStoreResponseTlv(FilestoreActionCode(1), FilestoreResponseStatusCode(16), 'f%03d' % i + 'x' * 96, '', CfdpLv(bytes([i & 0xFF]) * 100)) "
+                    "for i in range(160)]")
         if attr == "fault_location":
             return f"EntityIdTlv({bytes(spec)!r})"
         if attr == "file_store_responses":
@@ -596,6 +631,8 @@ class TcMachine(Machine):
 
     def menu(self, level):
         t = level == "t"
+        if level == "b":
+            return [("app_data=40000", "app_data", 40000), ("app_data=65529", "app_data", 65529), ("app_data=2", "app_data", 2), ("apid=0x123", "apid", 0x123), PACK]
         ev = [("app_data=0", "app_data", 0), ("app_data=1", "app_data", 1), ("app_data=2", "app_data", 2), ("app_data=4", "app_data", 4)]
         if t:
             ev += [("app_data=300", "app_data", 300), ("app_data=4ba", "app_data", -4)]
@@ -653,10 +690,10 @@ class TcMachine(Machine):
                  f"tc = PusTc({p['svc']}, {p['sub']}, apid={p['apid']:#x}, app_data={bytes(p['data'])!r}, seq_count={p['seq']:#x}, source_id={p['src']:#x}, ack_flags={p['ack']:#x})"]
         if start == "decoded":
             lines.append("tc = PusTc.unpack(bytes(tc.pack()))")
-        evs = {e[0]: e for e in self.menu("t")}
+        evs = {e[0]: e for e in self.menu("b") + self.menu("t")}
         for n in names:
             _, attr, spec = evs[n]
-            lines.append("tc.pack()" if attr == "pack" else f"tc.{attr} = {self.make_arg(attr, spec)!r}")
+            lines.append("tc.pack()" if attr == "pack" else f"tc.{attr} = {_short_src(self.make_arg(attr, spec))}")
         lines += ["raw = bytes(tc.pack())", "assert tc.packet_len == len(raw) and int.from_bytes(raw[4:6], 'big') == len(raw) - 7", "assert bytes(tc.pack()) == raw"]
         return "\n".join(lines)
 
@@ -677,6 +714,8 @@ class TmMachine(Machine):
 
     def menu(self, level):
         t = level == "t"
+        if level == "b":
+            return [("tm_data=40000", "tm_data", 40000), ("tm_data=65000", "tm_data", 65000), ("tm_data=2", "tm_data", 2), ("apid=0x123", "apid", 0x123), PACK]
         ev = [("tm_data=0", "tm_data", 0), ("tm_data=1", "tm_data", 1), ("tm_data=2", "tm_data", 2), ("tm_data=4", "tm_data", 4)]
         if t:
             ev += [("tm_data=300", "tm_data", 300), ("tm_data=4ba", "tm_data", -4)]
@@ -740,10 +779,10 @@ class TmMachine(Machine):
                  f"tm = PusTm({p['svc']}, {p['sub']}, {bytes(p['ts'])!r}, {bytes(p['data'])!r}, {p['apid']:#x}, {p['seq']:#x}, {p['mc']:#x}, {p['tref']}, {p['dest']:#x}, {p['ver']})"]
         if start == "decoded":
             lines.append(f"tm = PusTm.unpack(bytes(tm.pack()), {len(p['ts'])})")
-        evs = {e[0]: e for e in self.menu("t")}
+        evs = {e[0]: e for e in self.menu("b") + self.menu("t")}
         for n in names:
             _, attr, spec = evs[n]
-            lines.append("tm.pack()" if attr == "pack" else f"tm.{attr} = {('SequenceFlags(%d)' % spec) if attr == 'seq_flags' else repr(self.make_arg(attr, spec))}")
+            lines.append("tm.pack()" if attr == "pack" else f"tm.{attr} = {('SequenceFlags(%d)' % spec) if attr == 'seq_flags' else _short_src(self.make_arg(attr, spec))}")
         lines += ["raw = bytes(tm.pack())", "assert tm.packet_len == len(raw) and int.from_bytes(raw[4:6], 'big') == len(raw) - 7", "assert bytes(tm.pack()) == raw"]
         return "\n".join(lines)
 
@@ -778,6 +817,8 @@ class UslpMachine(Machine):
 
     def menu(self, level):
         t = level == "t"
+        if level == "b":
+            return [("tfdz=40000", "tfdz", 40000), ("tfdz=65000", "tfdz", 65000), ("tfdz=4", "tfdz", 4), ("set_frame_len_in_header", "set_frame_len_in_header", None), PACK]
         ev = [("tfdz=0", "tfdz", 0), ("tfdz=1", "tfdz", 1), ("tfdz=4", "tfdz", 4), ("tfdz=16", "tfdz", 16)]
         if t:
             ev += [("tfdz=300", "tfdz", 300), ("tfdz=4ba", "tfdz", -4), ("tfdz=2", "tfdz", 2)]
@@ -866,14 +907,14 @@ class UslpMachine(Machine):
                 lines.append(f"frame = TransferFrame.unpack(raw0, FrameType.FIXED, FixedFrameProperties(fixed_len=len(raw0), {args}))")
             else:
                 lines.append(f"frame = TransferFrame.unpack(raw0, FrameType.VARIABLE, VarFrameProperties(truncated_frame_len=12, {args}))")
-        evs = {e[0]: e for e in self.menu("t")}
+        evs = {e[0]: e for e in self.menu("b") + self.menu("t")}
         synced = h["frame_len"] == self._total(p) - 1
         for n in names:
             _, attr, spec = evs[n]
             if attr == "pack":
                 lines.append("frame.pack()")
             elif attr == "tfdz":
-                lines.append(f"frame.tfdf.tfdz = {self.make_arg(attr, spec)!r}")
+                lines.append(f"frame.tfdf.tfdz = {_short_src(self.make_arg(attr, spec))}")
                 synced = False
             else:
                 lines.append("frame.set_frame_len_in_header()")
@@ -1402,6 +1443,10 @@ def purity_cases(unit, tier):
                     # optional collections given as None instead of an empty list (both are documented inputs)
                     if unit == "FinishedPdu" and not (U.norm(rcp)["params"].get("resps")):
                         out.append({"kind": "purity", "unit": unit, "tier": tier, "i": ri, "dir": direction, "ba": ba, "none": 1})
+                    # a fault location handed over together with the 'no error' code (a combination the standard does not define: the
+                    # octets are not judged) still belongs to the caller: the constructor and pack() must leave it and the params alone
+                    if unit in ("EofPdu", "FinishedPdu") and U.norm(rcp)["params"].get("fault") is not None:
+                        out.append({"kind": "purity", "unit": unit, "tier": tier, "i": ri, "dir": direction, "ba": ba, "cc0": 1})
     elif unit == "TransferFrame":
         for fam in ("UslpTransferFrameVar", "UslpTransferFrameFixed", "UslpTransferFrameTruncated"):
             for ri in range(len(UU.UNITS[fam].corpus(tier))):
@@ -1439,6 +1484,8 @@ def purity_inputs(case):
             p["data_ba"] = p["checksum_ba"] = True
         if case.get("none") and unit == "FinishedPdu":
             p["resps"] = None
+        if case.get("cc0"):
+            p["cc"] = R.NO_ERROR
         ctor, held = cfdp_inputs(unit, r["cfg"], p, case["dir"])
         return ctor, held, lambda o: o.pack()
     if unit == "TransferFrame":
@@ -1566,6 +1613,12 @@ def shards(tier):
                         items.append(dict(base, mode="stateless", level="q", depth=4, first=f0))
                 else:
                     items.append(dict(base, mode="stateless", level="q", depth=4, first=None))
+    # level "b": arguments that carry the 16-bit length fields beyond 0x7FFF and close to 0xFFFF, and back (depth 2, every order)
+    for name, m in machines().items():
+        if not m.menu("b"):
+            continue
+        for cfg in m.cfgs("quick"):
+            items.append({"kind": "explore", "m": name, "cfg": cfg, "init": 0, "tier": tier, "mode": "stateless", "level": "b", "depth": 2 if q else 3, "first": None})
     for unit in PURITY_UNITS:
         items.append({"kind": "purity", "unit": unit, "tier": tier})
     for name in SIBLING_KINDS:
@@ -1632,7 +1685,7 @@ def replay(case):
     mach = M(case["m"])
     cfg = case["cfg"]
     init = mach.inits(cfg)[case["init"]]
-    by_name = {e[0]: e for e in mach.events("t")}
+    by_name = {e[0]: e for e in mach.events("b") + mach.events("t")}
     evs = [by_name[n] for n in case["seq"]]
     parent = frozenset()
     if evs:
